@@ -50,6 +50,8 @@ def crashes {α : Type} : Out α → Bool
 /-- the outcome is a result or an error: no panic, no abort, no hang -/
 def Safe {α : Type} (o : Out α) : Prop := o.crashes = false
 
+instance {α : Type} (o : Out α) : Decidable o.Safe := by unfold Safe; infer_instance
+
 def isPanic {α : Type} : Out α → Bool
   | panic _ => true
   | _ => false
@@ -513,8 +515,18 @@ def framesLoop (fileLen : Nat) : List FrameV → Nat → Out Unit
       else if f.off < prevEnd then .err "overlap"
       else framesLoop fileLen fs e
 
+/-- `sort_by_key(|f| f.payload_offset)` (stable) as an insertion sort: an element goes in front of
+    the first one whose key is not smaller -/
+def insertFrame (f : FrameV) : List FrameV → List FrameV
+  | [] => [f]
+  | g :: gs => if g.off < f.off then g :: insertFrame f gs else f :: g :: gs
+
+def sortFrames : List FrameV → List FrameV
+  | [] => []
+  | f :: fs => insertFrame f (sortFrames fs)
+
 def ensureNonOverlapping (frames : List FrameV) (fileLen : Nat) : Out Unit :=
-  framesLoop fileLen ((frames.filter fun f => f.active && decide (f.len > 0)).mergeSort fun a b => decide (a.off ≤ b.off)) 0
+  framesLoop fileLen (sortFrames (frames.filter fun f => f.active && decide (f.len > 0))) 0
 
 /-! ### D12 `compute_data_end` / `compute_payload_region_end` -/
 
@@ -601,18 +613,22 @@ structure Opened where
   generation : Nat
 deriving Repr, DecidableEq
 
+/-- `match read_toc(..) { Ok(toc) => toc, Err(Decode | InvalidToc) => recover_toc(.., Some(footer_offset)) }`
+    (every error the modelled part of `read_toc` produces is one of those two) -/
+def tocOrRecover (H : Bytes → Bytes) (dec : Bytes → BB TocV) (file : Bytes) (fo : Nat) : Out (TocV × Nat) :=
+  match readToc H dec file fo with
+  | .ok t => .ok (t, fo)
+  | .err _ => recoverToc H dec file (some fo)
+  | .panic w => .panic w
+  | .abort w => .abort w
+  | .hang => .hang
+
 /-- `open_locked` (writable open).  `zstdOk` stands for what follows the track headers (zstd +
     serde_json / bincode), `dec` for `Toc::decode`; Tantivy / LexIndex / VecIndex loading sits
     between `compute_data_end` and `recover_wal` and is not modelled. -/
 def openLocked (H : Bytes → Bytes) (dec : Bytes → BB TocV) (file : Bytes) : Out Opened := do
   let hdr ← headerRead file
-  let (toc, fo) ←
-    match readToc H dec file hdr.footerOffset with
-    | .ok t => (.ok (t, hdr.footerOffset) : Out (TocV × Nat))
-    | .err _ => recoverToc H dec file (some hdr.footerOffset)
-    | .panic w => .panic w
-    | .abort w => .abort w
-    | .hang => .hang
+  let (toc, fo) ← tocOrRecover H dec file hdr.footerOffset
   ensureNonOverlapping toc.frames file.length
   let wal ← walOpen H file hdr.walOffset hdr.walSize hdr.walSequence false
   let gen ← locateWindow H file
